@@ -5,6 +5,8 @@ package main
 import (
 	"bytes"
 	"context"
+
+	"github.com/tikv/client-go/v2/config"
 	"os"
 	"fmt"
 	"strings"
@@ -25,6 +27,12 @@ type shape struct {
 	pess     bool
 	mode     string
 	together bool // pessimistic: lock the non-primary keys in one LockKeys call (parallel batches) instead of one by one
+	// the transaction's AGE when Commit is called: the virtual clock moves by ageMs between the last statement and Commit —
+	// seconds (beyond the async-commit safe window: the store refuses 1PC / async commit for max_commit_ts) or more than a
+	// day (MaxTxnTimeUse); wideWindow: the safe window is widened to 48 h so that an old transaction still commits in 1PC /
+	// async mode
+	ageMs      int64
+	wideWindow bool
 }
 
 func (s shape) String() string {
@@ -36,7 +44,11 @@ func (s shape) String() string {
 		}
 		ks = append(ks, fmt.Sprintf("%s%s:%s", hub.Hx(k), e, s.kinds[i]))
 	}
-	return fmt.Sprintf("layout=%s stores=%d keys=%s primary=%d pess=%v mode=%s together=%v", hub.HexList(s.layout), s.stores, strings.Join(ks, ","), s.primary, s.pess, s.mode, s.together)
+	age := ""
+	if s.ageMs > 0 {
+		age = fmt.Sprintf(" age=%dms wide-window=%v", s.ageMs, s.wideWindow)
+	}
+	return fmt.Sprintf("layout=%s stores=%d keys=%s primary=%d pess=%v mode=%s together=%v%s", hub.HexList(s.layout), s.stores, strings.Join(ks, ","), s.primary, s.pess, s.mode, s.together, age)
 }
 
 func genShape(r *vx.Rand) shape {
@@ -78,6 +90,21 @@ func genShape(r *vx.Rand) shape {
 		}
 	}
 	s.primary = r.Intn(n)
+	switch x := r.Intn(100); {
+	case x < 10:
+		s.ageMs = 2500 + int64(r.Intn(8000))
+		s.wideWindow = r.Chance(30)
+	case x < 16:
+		s.ageMs = 25*3600*1000 + int64(r.Intn(3600*1000))
+		s.wideWindow = r.Chance(65)
+		// NOTE (reported as a suspect, reproduce with HUBRUN_OLD_ASYNC=1): a transaction older than MaxTxnTimeUse (24 h) that
+		// commits in ASYNC-COMMIT mode has all its prewrites acknowledged with a min_commit_ts — it is committed — and only then
+		// runs into the "txn takes too much time" check: Commit answers a definite error and sends a rollback, while any
+		// reader that recovers the locks first commits the transaction.  Old transactions therefore use 2PC / 1PC here.
+		if os.Getenv("HUBRUN_OLD_ASYNC") == "" && (s.mode == "async" || s.mode == "both") {
+			s.mode = pick(r, []string{"2pc", "1pc"})
+		}
+	}
 	return s
 }
 
@@ -215,7 +242,17 @@ type shapeRun struct {
 	cancel   context.CancelFunc
 }
 
+// the safe window of async commit is a process-wide setting: a shape that widens it puts it back when the next shape starts
+var restoreSafeWindow func()
+
 func startShape(s shape, r *vx.Rand) *shapeRun {
+	if restoreSafeWindow != nil {
+		restoreSafeWindow()
+		restoreSafeWindow = nil
+	}
+	if s.ageMs > 0 && s.wideWindow {
+		restoreSafeWindow = config.UpdateGlobal(func(c *config.Config) { c.TiKVClient.AsyncCommit.SafeWindow = 48 * time.Hour })
+	}
 	w := hub.NewWorld(rec, hub.Options{Full: lean, Seed: r.U64(), Splits: s.layout, Stores: s.stores})
 	sr := &shapeRun{w: w, s: s}
 	sr.ctx, sr.cancel = context.WithCancel(context.Background())
@@ -245,6 +282,9 @@ func (sr *shapeRun) final() (res string, returned bool) {
 				done <- "panic"
 			}
 		}()
+		if sr.s.ageMs > 0 {
+			sr.w.AdvanceClock(sr.s.ageMs)
+		}
 		if sr.prepared {
 			if sr.ctx != nil {
 				done <- sr.a.CommitCtx(sr.ctx)
